@@ -17,7 +17,7 @@ RULE = (
     'while waiting for the read mutex". Offline FIFO-queue checker over the event log with '
     'unique item ids: no duplicate, no loss (final buffer content is added to the history), no '
     'invented item, receives in put order, waiting receivers served in request order, '
-    'StreamClosed only when nothing is buffered, put after close rejected and stores nothing. '
+    'StreamClosed only when nothing is buffered, nobody left waiting at quiescence while items are buffered or the queue is closed, put after close rejected and stores nothing. '
     'non-trivial = a signal landed inside a participant, or the reference run; distinct = trace'
 )
 LEVEL_TEXT = (
@@ -176,6 +176,17 @@ class QueueChecker:
                                % item)
         if final != [item for item in self.put_order if item in final]:
             self.violation('fifo', 'final buffer %s is not in put order' % final)
+        # nobody keeps waiting while there is something to receive (or the queue is closed)
+        self.stats['quiescent_waiters_checked'] = self.stats.get(
+            'quiescent_waiters_checked', 0) + len(self.pending)
+        if self.pending and final:
+            self.violation('waiter-starved',
+                           'at quiescence %s still wait for an item while %s are buffered' % (
+                               self.pending, final))
+        elif self.pending and self.queue._closed:
+            self.violation('waiter-not-closed',
+                           'at quiescence %s still wait on a closed, empty queue' % (
+                               self.pending,))
         self.stats['puts_interrupted'] += len(
             [item for item in self.put_order
              if item not in self.put_done and item not in self.rejected])
